@@ -11,6 +11,7 @@ Oracle the independent Lean SUSP reader on written images (harness/histcheck): N
 """
 import random
 
+import io
 import os
 import shutil
 import tempfile
@@ -220,6 +221,48 @@ def probe_relocated_name(ctx):
                 want = 'R:D:/' + nm.encode().hex()
                 if not any(e.startswith(want + ':') or e == want or e.startswith(want) and e[len(want):len(want) + 1] in (':', '') for e in rep.entries):
                     ctx.violation('C08.relocated-name/name-lost', 'relocation directory: the %d-byte Rock Ridge name is not recovered' % ln, rp)
+        # two relocated directories with the same identifier and Rock Ridge name, default and user-chosen relocation
+        # directory: both are accepted, the image is well formed, each parent lists its own directory
+        for custom in (False, True):
+            rp = {'kind': 'probe-relocated-name', 'custom': custom}
+            with isoapi.frozen_time():
+                iso = pycdlib.PyCdlib()
+                iso.new(interchange_level=3, rock_ridge='1.09')
+                try:
+                    if custom:
+                        iso.set_relocated_name('MOVED', 'moved')
+                    for top in ('A', 'B'):
+                        p = '/' + top
+                        iso.add_directory(p, rr_name=top.lower())
+                        for i in range(2, 8):
+                            p += '/D%d' % i
+                            iso.add_directory(p, rr_name='d%d' % i)
+                        iso.add_directory(p + '/DIR8', rr_name='dir8')
+                        iso.add_fp(io.BytesIO(top.encode()), 1, p + '/DIR8/F%s.;1' % top, rr_name='file-' + top.lower())
+                    path = os.path.join(tmpdir, 'r2.iso')
+                    iso.write(path)
+                except Exception as e:  # noqa
+                    ctx.violation('C08.relocated-same-name/%s' % isoapi.exc_class(e), 'two relocated directories named DIR8/dir8 (%s relocation directory): %r' % (
+                        'user-named' if custom else 'default', e), rp)
+                    continue
+                finally:
+                    iso.close()
+            ctx.count(key=('relocated-same-name', custom), nontrivial=True, kind='probe:relocated-same-name')
+            rep = isoapi.read_image(ctx, path)
+            for e in rep.errs:
+                if histcheck.owns(e.split(':')[0], histcheck.RR_CODES):
+                    ctx.violation('C08.relocated-same-name/%s' % e.split(':')[0], 'two relocated directories of one name: %s' % e[:160], rp)
+            g = pycdlib.PyCdlib()
+            try:
+                g.open(path)
+                for top in ('a', 'b'):
+                    kids = [c for c in g.list_children(rr_path='/%s/d2/d3/d4/d5/d6/d7' % top) if not c.is_dot() and not c.is_dotdot()]
+                    inner = sorted(x.rock_ridge.name() for k in kids for x in k.children if not x.is_dot() and not x.is_dotdot())
+                    if inner != [('file-' + top).encode()]:
+                        ctx.violation('C08.relocated-same-name/listed-wrong-directory', 'list_children below /%s/.../d7 reaches a dir8 that holds %s' % (top, inner), rp)
+                g.close()
+            except Exception as e:  # noqa
+                ctx.violation('C08.relocated-same-name/reopen-%s' % isoapi.exc_class(e), 'image with two relocated directories of one name: %r' % e, rp)
     finally:
         shutil.rmtree(tmpdir, ignore_errors=True)
 
